@@ -179,24 +179,53 @@ func checkPayloadHeaders(c *Ctx, r *Report, pk *Packager, w *ssa.Function, pa *p
 			continue
 		}
 		// payload headers only: the name derives from an entry's destination
-		isPayload := false
-		for _, st := range h.fieldStores("Name") {
-			if pa.Of(st.Val).has("Content.Destination") {
-				isPayload = true
+		// members generated by the packager itself (constant mode: the deb
+		// changelog) are not entries of the configuration's contents. A header
+		// builder whose mode is a parameter is judged per call site.
+		ctxs := []*provCtx{nil}
+		perSite := false
+		for _, st := range h.fieldStores("Mode") {
+			if _, isPrm := stripConv(st.Val).(*ssa.Parameter); isPrm && st.Val.Parent() == h.Fn {
+				perSite = true
 			}
+		}
+		if sites := pa.callSites(h.Fn); perSite && len(sites) > 0 {
+			ctxs = nil
+			for _, cs := range sites {
+				ctxs = append(ctxs, &provCtx{call: cs.Common(), fn: h.Fn, depth: 1})
+			}
+		}
+		isPayload := false
+		for _, ctx := range ctxs {
+			named := false
+			for _, st := range h.fieldStores("Name") {
+				if pa.of(st.Val, ctx).has("Content.Destination") {
+					named = true
+				}
+			}
+			if !named {
+				continue
+			}
+			allConst := len(h.fieldStores("Mode")) > 0
+			for _, st := range h.fieldStores("Mode") {
+				v := stripConv(st.Val)
+				if prm, isPrm := v.(*ssa.Parameter); isPrm && ctx != nil {
+					for i, q := range h.Fn.Params {
+						if q == prm && i < len(ctx.call.Args) {
+							v = stripConv(ctx.call.Args[i])
+						}
+					}
+				}
+				if _, isConst := v.(*ssa.Const); !isConst {
+					allConst = false
+				}
+			}
+			if allConst && h.Kind == "tar" {
+				continue
+			}
+			isPayload = true
 		}
 		if !isPayload {
-			continue
-		}
-		// members generated by the packager itself (constant mode: the deb
-		// changelog) are not entries of the configuration's contents
-		allConst := len(h.fieldStores("Mode")) > 0
-		for _, st := range h.fieldStores("Mode") {
-			if _, isConst := st.Val.(*ssa.Const); !isConst {
-				allConst = false
-			}
-		}
-		if allConst && h.Kind == "tar" {
 			continue
 		}
 		n++
@@ -753,4 +782,18 @@ func narrowsMode(c *Ctx, v ssa.Value, d int) string {
 		}
 	}
 	return ""
+}
+
+// stripConv: v below value conversions.
+func stripConv(v ssa.Value) ssa.Value {
+	for {
+		switch x := v.(type) {
+		case *ssa.Convert:
+			v = x.X
+		case *ssa.ChangeType:
+			v = x.X
+		default:
+			return v
+		}
+	}
 }
